@@ -156,7 +156,16 @@ def check_snapshots(res, s, op, old, new, mon, scratch, origin="proxy"):
 def run_history(res, cfg, scratch, rng, hidx, kill_budget):
     prof = Profile(reindex=2, reopen=2)
     prof.allow_no_time = False
-    s = Session(cfg, scratch)
+    link = None
+    if hidx % 4 == 3:
+        # the database is opened through a symbolic link (db.csv -> real/real.csv)
+        link = scratch.new_db_path()
+        real_dir = os.path.join(os.path.dirname(link), "real")
+        os.mkdir(real_dir)
+        open(os.path.join(real_dir, "real.csv"), "w").close()
+        os.symlink(os.path.join(real_dir, "real.csv"), link)
+        res.count("histories_through_a_symlink")
+    s = Session(cfg, scratch, path=link)
     hub = ioproxy.IOHub()
     hub.primary = s.path
     try:
@@ -307,6 +316,7 @@ def run(res, tier, seed, shard, nshards):
 
 def finalize(res, tier):
     res.require("large_file_ops")
+    res.require("histories_through_a_symlink")
     if sysmon.available():
         res.require("kill.crash_points")
 
